@@ -3,7 +3,7 @@ from common import *
 
 RULE = ("revcomp: every string over the 15 IUPAC codes, upper case to length L1 and mixed case to length L2 "
         "(exhaustive), then random strings (log-uniform length to 10^4, random case); variants: every string over "
-        "the 15 codes to length L3 (exhaustive) and random strings whose expansion has at most 4096 readings. "
+        "the 15 codes to length L3 (exhaustive), random strings whose expansion has at most 4096 (some up to 10^6 in the thorough tier) readings, and strings with more than MaxInt32 readings (which must be refused with an error). "
         "non-trivial = revcomp input of length >= 2 / variants input with at least one ambiguity code; distinct by case text")
 EXHAUSTIVE = {"quick": False, "thorough": True}
 TRUSTED_BASE = ["Spec/Nucleotide.lean: IUPAC code sets typed from the IUPAC-IUB nomenclature",
@@ -23,23 +23,43 @@ def cases(seed, tier):
     for w in words("aCnRy", 3, 1):
         yield ["variants", w]
     n = 300 if tier == "quick" else 5000
+    comp = dict(zip("ACGTRYSWKMBDHVN", "TGCAYRSWMKVHDBN"))
+    comp.update({k.lower(): v.lower() for k, v in list(comp.items())})
     for _ in range(n):
         k = loglen(r, 1, 10000 if tier == "thorough" else 2000)
         w = randcase(r, randword(r, IUPAC15, k))
-        if r.random() < 0.3:   # make it a palindrome
-            w = w + "".join({"A":"T","T":"A","C":"G","G":"C","a":"t","t":"a","c":"g","g":"c"}.get(c, "N") for c in reversed(w)) if all(c in "ACGTacgt" for c in w) else w
+        kind = r.random()
+        if kind < 0.25:     # an exact reverse-palindrome (case pattern mirrored too)
+            w = w + "".join(comp[c] for c in reversed(w))
+        elif kind < 0.35:   # a near-palindrome: one letter or one case off
+            w = list(w + "".join(comp[c] for c in reversed(w)))
+            p = r.randrange(len(w))
+            w[p] = w[p].swapcase() if r.random() < 0.5 else r.choice(IUPAC15)
+            w = "".join(w)
+        elif kind < 0.45:   # odd length with a self-complementary centre
+            w = w + r.choice("SWNswn") + "".join(comp[c] for c in reversed(w))
         yield ["revcomp", w]
-    for _ in range(n):
-        k = r.randint(1, 14)
+    size_of = {"A":1,"C":1,"G":1,"T":1,"N":4,"B":3,"D":3,"H":3,"V":3}
+    cap = 4096 if tier == "quick" else 1000000
+    for i in range(n):
+        k = r.randint(1, 14 if i % 10 else 40)
         w, total = "", 1
         for _ in range(k):
             c = r.choice(IUPAC15 if r.random() < 0.5 else ACGT)
-            size = {"A":1,"C":1,"G":1,"T":1,"N":4,"B":3,"D":3,"H":3,"V":3}.get(c, 2)
-            if total * size > 4096:
+            size = size_of.get(c, 2)
+            if total * size > (cap if i % 50 == 0 else 4096):
                 c, size = r.choice(ACGT), 1
             total *= size
             w += c
         yield ["variants", randcase(r, w)]
+    # expansions that cannot be enumerated (more than MaxInt32 readings): the code must refuse with an error.
+    # (Counts between 2*10^6 and MaxInt32 are never generated: they are legal but need tens of gigabytes.)
+    for w in ["N" * 16, "N" * 31, "N" * 32, "N" * 33, "NNK" * 22, "R" * 32, "R" * 64, "ACGT" + "N" * 40 + "ACGT",
+              "B" * 20, "B" * 41, "n" * 64, "N" * 1000, "NB" * 9 + "ACGT"]:
+        yield ["variants", w]
+    for _ in range(20 if tier == "quick" else 300):
+        k = r.randint(16, 200)
+        yield ["variants", randcase(r, randword(r, "NBDHVRYKMSW", k))]
     # out-of-domain probes (not judged; model drift is reported only as information)
     for w in ["U", "u", "ACGU", "X", "acgtz", "A-C", "AC GT", "1"]:
         yield ["revcomp", w]
